@@ -10,6 +10,7 @@ Decides (decode-level lockstep and structural parity; not equality of results fo
               helper that does
   5 SIBLING   stack frame widths of CALL/RET/RETF/IR/RETI and HALT/OFF/RESET register effects (shared with C05, C12, C04.6)
   6 FEATURES  INC/DEC effective width per register; carry-in / direction / BCD / subtract of ADCL/SBCL/DADL/DSBL; target formulas at a page edge
+  7 FLAGS     per opcode the flags the Rust arm may write == the flags the Python IL writes (may-effect analysis of execute_with with the table row concrete)
 Flags/results parity of the hand-written Rust evaluator with the Python lift for all operand values is declined (no sound static
 argument in reach without compiling the crate)."""
 from __future__ import annotations
@@ -289,6 +290,28 @@ def feature_parity(ctx: Ctx, py: PyProgram, rs: RustProgram, rows: dict, ok_base
                               f"the Rust core {'does' if feats_rs[cname][f] else 'does not'} ({f}: Python {feats_py[cname][f]}, Rust {feats_rs[cname][f]})", f"{isa.INSTR_PY}")
     ctx.extra["multibyte_features"] = {"python": feats_py, "rust": feats_rs}
     ctx.instance("C06.6/multibyte-feature", "ADCL/SBCL/DADL/DSBL: carry-in, direction, BCD, subtract - Python lift arguments vs Rust arms", 16, 16)
+    # (b2) flags each core may write, per opcode: may-effect analysis of the Rust arm (table row concrete, conditions on it pruned)
+    #      vs the flag write set of the Python IL over all selector values
+    from .. import ilfacts
+    from ..rs_effects import RsEffects
+    re_ = RsEffects(rs)
+    pyflags: dict[int, set] = collections.defaultdict(set)
+    seen_ops = set()
+    for c in lifted:
+        if c.status == "ok" and not c.lift_exc:
+            pyflags[c.opcode] |= set(ilfacts.flags_written(c.il_terms))
+            seen_ops.add(c.opcode)
+    nf = 0
+    for op in sorted(seen_ops):
+        r = rows[op]
+        if r.cls in ("PRE", "UnknownInstruction"):
+            continue
+        nf += 1
+        rf = re_.for_opcode(op).flags
+        if rf != pyflags[op]:
+            ctx.violation("C06.7/flag-signature", key_of(rs_file(), f"execute_with opcode 0x{op:02X} {r.name}", f"flags {sorted(rf)} vs {sorted(pyflags[op])}"),
+                          f"opcode 0x{op:02X} ({r.name} {' '.join(o.ctor for o in r.ops)}): the Rust arm may write flags {sorted(rf) or 'none'}, the Python IL writes {sorted(pyflags[op]) or 'none'}", f"{isa.OPTABLE}:{r.ln}")
+    ctx.instance("C06.7/flag-signature", "opcodes: flags the Rust arm may write (pruned may-effect analysis, save/restore pairs excluded) == flags written by the Python IL", nf, 230)
     # (c) control-transfer target formulas at a page edge (shared with C05)
     from .c05 import EDGE_ADDR, rust_formulas
     from ..isa_sweep import Sweeper
